@@ -8,6 +8,7 @@ from __future__ import annotations
 
 import base64
 import hashlib
+import json
 import random
 from typing import Any, Optional
 
@@ -396,6 +397,74 @@ class HandGen:
             "kind": "hand",
         }
         return m, meta
+
+
+class TypeGen:
+    """Models whose DECLARED input / output types are the corner shapes of a tensor type: literal 0 dimensions
+    (anywhere, several), dim_param "" (the field set, the string empty), dimensions with neither field, symbolic
+    names, no shape field at all (unknown rank), rank 0. Elementwise operators only, so every value has the one
+    run-time shape; the declarations of the inputs and outputs vary independently where the run-time shape allows."""
+
+    RUNTIME = [[0, 3], [3, 0], [0], [0, 0], [1, 0, 2], [2, 3], [2], [1], [], [0, 1], [2, 0, 0]]
+
+    def __init__(self, rng: random.Random):
+        self.rng = rng
+        self.features: set[str] = set()
+
+    def declare(self, shape: list):
+        """A declaration the run-time shape satisfies: each dim literal / symbolic / "" / missing; or no shape."""
+        r = self.rng
+        if r.random() < 0.12:
+            self.features.add("decl:unknown-rank")
+            return None
+        out = []
+        for d in shape:
+            k = r.random()
+            if k < 0.55:
+                out.append(d)
+                if d == 0:
+                    self.features.add("decl:literal-0")
+            elif k < 0.7:
+                out.append(r.choice(["N", "M", "batch"]))
+            elif k < 0.85:
+                out.append("")
+                self.features.add("decl:dim_param-empty")
+            else:
+                out.append(None)
+                self.features.add("decl:dim-missing-fields")
+        return out
+
+    def model(self) -> tuple[onnx.ModelProto, dict]:
+        r = self.rng
+        shape = list(r.choice(self.RUNTIME))
+        if 0 in shape:
+            self.features.add("zero-size")
+        n_in = r.randrange(1, 4)
+        ins = [f"i{j}" for j in range(n_in)]
+        inputs = [_vi(n, TP.FLOAT, self.declare(shape)) for n in ins]
+        inits = []
+        if n_in > 1 and r.random() < 0.3:
+            inits.append(NH.from_array(np.full(shape, 1.5, np.float32), ins[-1]))
+            self.features.add("default-valued-input")
+        avail, nodes = list(ins), []
+        for j in range(r.randrange(1, 4)):
+            out = f"t{j}"
+            if r.random() < 0.5:
+                nodes.append(H.make_node(r.choice(["Abs", "Neg", "Relu"]), [r.choice(avail)], [out]))
+            else:
+                nodes.append(H.make_node(r.choice(["Add", "Sub", "Mul"]), [r.choice(avail), r.choice(avail)], [out]))
+            avail.append(out)
+        outs = [avail[-1]] + ([r.choice(avail)] if r.random() < 0.4 else [])
+        outs = list(dict.fromkeys(outs))
+        for o in outs:
+            if o in ins:
+                self.features.add("output-is-input")
+        outputs = [_vi(o, TP.FLOAT, self.declare(shape)) for o in outs]
+        g = H.make_graph(nodes, "g", inputs, outputs, initializer=inits, doc_string="runtime-shape:" + json.dumps(shape))
+        opset = r.choice([13, 17, 17, 19, 21])
+        m = H.make_model(g, opset_imports=[H.make_operatorsetid("", opset)], ir_version=8)
+        self.features.add("declared-types")
+        return m, {"features": sorted(self.features), "runnable": True, "opset": opset, "kind": "types", "runtime_shape": shape}
 
 
 def add_local_function(m: onnx.ModelProto) -> onnx.ModelProto:
